@@ -3,6 +3,7 @@ package verifh
 import (
 	"context"
 	"encoding/json"
+	"errors"
 	"fmt"
 	"runtime"
 	"sort"
@@ -148,7 +149,9 @@ type action struct {
 	Err    string
 	Tag    string
 	// push actions
-	CtxKind   int // 0 background, 1 cancelled by the workload, 2 deadline on the fake clock
+	CtxKind   int // 0 background, 1 cancelled by the workload, 2 deadline on the fake clock, 3 already cancelled when invoked
+	Cause     bool   // kinds 1 and 3: cancelled with a custom cause (the result is context.Canceled all the same)
+	Method    string // method name of the push
 	CancelSeq int // seq at which the workload cancelled / the deadline fired (-1)
 	CancelEnd int
 	cancel    func()
@@ -180,6 +183,7 @@ type peerReply struct {
 	IsErr   bool
 	Defect  bool // a member with one structural defect (id still resolvable)
 	Code    int  // error code of an error reply
+	Result  string // exact result text of a result reply ("" not recorded)
 }
 
 type srvWorld struct {
@@ -516,6 +520,14 @@ func (w *srvWorld) generate() {
 			}
 		}
 	}
+	var hm []*member
+	for _, m := range w.msgs {
+		for _, mm := range m.Members {
+			if mm.hasHandler() {
+				hm = append(hm, mm)
+			}
+		}
+	}
 	for i := 0; i < nc; i++ {
 		a := &action{Kind: aCancel, Invoke: -1, Return: -1, CancelSeq: -1}
 		if len(ids) > 0 && g.Chance("cancelknown", 0.85) {
@@ -526,17 +538,15 @@ func (w *srvWorld) generate() {
 		} else {
 			a.ID = "9999"
 		}
-		a.Gate = g.Chance("actgate", 0.6)
-		a.Delay = g.Int("actdelay", 30)
-		w.acts = append(w.acts, a)
-	}
-	var hm []*member
-	for _, m := range w.msgs {
-		for _, mm := range m.Members {
-			if mm.hasHandler() {
-				hm = append(hm, mm)
-			}
+		if len(hm) > 0 && g.Chance("cancelfromhandler", 0.25) {
+			// CancelRequest issued by a handler (for another call, or for its own)
+			a.FromH = hm[g.Int("cancelhandler", len(hm))]
+			a.FromH.Script.Push = 1
+		} else {
+			a.Gate = g.Chance("actgate", 0.6)
+			a.Delay = g.Int("actdelay", 30)
 		}
+		w.acts = append(w.acts, a)
 	}
 	np := 0
 	if w.cfg.Pushes > 0 {
@@ -546,8 +556,11 @@ func (w *srvWorld) generate() {
 		a := &action{Kind: aNotify, Invoke: -1, Return: -1, CancelSeq: -1, Tag: fmt.Sprintf("p%d", i)}
 		if g.Chance("iscallback", 0.7) {
 			a.Kind = aCallback
-			a.CtxKind = g.Weighted("pushctx", []int{4, 3, 2})
+			a.CtxKind = g.Weighted("pushctx", []int{4, 3, 2, 1})
+			a.Cause = g.Chance("pushcause", 0.3)
 		}
+		// names that need JSON escaping travel unchanged
+		a.Method = []string{"push", "push", "push/sub.method", "p\"q\\r", "m\u00e9thode \n"}[g.Int("pushmethod", 5)]
 		if len(hm) > 0 && g.Chance("pushfromhandler", 0.5) {
 			a.FromH = hm[g.Int("pushhandler", len(hm))]
 			a.FromH.Script.Push = 1
@@ -898,8 +911,18 @@ func (w *srvWorld) perform(ctx context.Context, a *action) {
 func (w *srvWorld) doPushAct(base context.Context, a *action) {
 	ctx := base
 	switch a.CtxKind {
-	case 1:
-		ctx, a.cancel = context.WithCancel(base)
+	case 1, 3:
+		if a.Cause {
+			c, cc := context.WithCancelCause(base)
+			ctx, a.cancel = c, func() { cc(errors.New("custom cause: the operator gave up")) }
+		} else {
+			ctx, a.cancel = context.WithCancel(base)
+		}
+		if a.CtxKind == 3 {
+			a.CancelSeq = w.seq()
+			a.cancel()
+			a.CancelEnd = w.seq()
+		}
 	case 2:
 		var c context.CancelFunc
 		ctx, c = context.WithTimeout(base, time.Minute)
@@ -910,11 +933,11 @@ func (w *srvWorld) doPushAct(base context.Context, a *action) {
 	params := map[string]string{"t": a.Tag}
 	if a.Kind == aNotify {
 		w.r.Ev("notify.invoke", a.Tag, 0, 0, "")
-		err := w.srv.Notify(ctx, "pushnote", params)
+		err := w.srv.Notify(ctx, a.Method, params)
 		a.Err, a.ErrV = errStr(err), err
 	} else {
 		w.r.Ev("callback.invoke", a.Tag, 0, 0, "")
-		rsp, err := w.srv.Callback(ctx, "pushcall", params)
+		rsp, err := w.srv.Callback(ctx, a.Method, params)
 		a.Err, a.ErrV = errStr(err), err
 		if err == nil && rsp != nil {
 			a.Result = rsp.ResultString()
@@ -1018,6 +1041,11 @@ func (w *srvWorld) setup() {
 func (w *srvWorld) start() {
 	r := w.r
 	opts := &jrpc2.ServerOptions{Concurrency: w.optK, AllowPush: w.push, RPCLog: w}
+	if r.Gen.Chance("srvlogger", 0.3) {
+		// a debug logger: every log call is one more point at which the
+		// scheduler may switch, also inside the server's critical sections
+		opts.Logger = func(string) { rt.Yield("log") }
+	}
 	w.srv = jrpc2.NewServer(w, opts)
 	r.Sim.Spawn("a-main", func() { w.srv.Start(w.sEnd); w.started = true })
 	r.Sim.Spawn("p-send", w.peerSender)
